@@ -600,10 +600,10 @@ func c02Framing(c *Ctx) {
 	}
 	sl := c.fn("trzszTransfer.sendLine")
 	okFmt := false
-	for _, ci := range callsIn(sl, idIs("fmt.Sprintf")) {
-		fm, isS := constString(ci.Common().Args[0])
-		els, ok := sliceElems(ci.Common().Args[1])
-		if isS && fm == "#%s:%s%s" && ok && len(els) == 3 && isVar("typ")(strip(els[0].V)) && isVar("buf")(strip(els[1].V)) && isFieldLoad("Newline")(strip(els[2].V)) {
+	for _, ci := range callsIn(sl, idIs(tT+"writeAll", "trzsz.writeAll")) {
+		args := ci.Common().Args
+		parts, ok := stringParts(args[len(args)-1])
+		if ok && len(parts) == 5 && parts[0].lit == "#" && isVar("typ")(parts[1].val) && parts[2].lit == ":" && isVar("buf")(parts[3].val) && parts[4].val != nil && isFieldLoad("Newline")(parts[4].val) {
 			okFmt = true
 		}
 	}
